@@ -1,2 +1,117 @@
-(** C09 — stub while the proofs are being written. *)
-From DV Require Import Json.Model Json.Corr.
+(** C09 — Serialisation round-trips exactly through JSON and through NIfTI files.
+
+    [print] = json.dumps(obj, indent=4), [parse] = json.loads(s, object_pairs_hook=OrderedDict) (DV.Json.Model).
+    [wf j]: strings and keys are sequences of Unicode scalar values, float tokens are lexemes of the JSON number
+    grammar with a fraction or an exponent (or NaN / Infinity / -Infinity), the keys of every object are pairwise
+    distinct.  Integers, nesting depth, key order and key text are unrestricted.
+    [check_valid] (the validity check, DV.Content) is universally quantified in the structure theorems. *)
+From Coq Require Import List ZArith NArith.
+From DV Require Import Common.Str Common.Jv Common.Res Json.Model Json.ProofsNum Json.ProofsCodec Json.ProofsStruct.
+Import ListNotations.
+
+(* ---------------------------------------------------------------- text codec *)
+
+Theorem C09_parse_print : forall j, wf j -> parse (print j) = Some j.
+Proof. exact parse_print. Qed.
+
+Example C09_parse_print_nonvacuous : wf sample /\ parse (print sample) = Some sample.
+Proof. split; [exact sample_wf | vm_compute; reflexivity]. Qed.
+
+Theorem C09_print_stable : forall j, wf j -> forall j', parse (print j) = Some j' -> print j' = print j.
+Proof. exact print_stable. Qed.
+
+Example C09_print_stable_nonvacuous :
+  exists j', parse (print sample) = Some j' /\ print j' = print sample.
+Proof. exists sample. split; vm_compute; reflexivity. Qed.
+
+Theorem C09_print_int_roundtrip : forall z, scan_number (print_int z) = Some (JInt z, []).
+Proof. exact scan_number_print_int. Qed.
+
+Example C09_print_int_roundtrip_nonvacuous :
+  print_int (-123456789012345678901234567890)%Z
+  = [45; 49; 50; 51; 52; 53; 54; 55; 56; 57; 48; 49; 50; 51; 52; 53; 54; 55; 56; 57; 48; 49; 50; 51; 52; 53; 54; 55; 56; 57; 48]%N
+  /\ parse (print_int (-123456789012345678901234567890)%Z) = Some (JInt (-123456789012345678901234567890)%Z).
+Proof. split; vm_compute; reflexivity. Qed.
+
+Theorem C09_print_injective : forall a b, wf a -> wf b -> print a = print b -> a = b.
+Proof. exact print_injective. Qed.
+
+Example C09_print_injective_nonvacuous :
+  wf (JObj [([97]%N, JInt 1); ([98]%N, JInt 2)]) /\ wf (JObj [([98]%N, JInt 2); ([97]%N, JInt 1)])
+  /\ print (JObj [([97]%N, JInt 1); ([98]%N, JInt 2)]) <> print (JObj [([98]%N, JInt 2); ([97]%N, JInt 1)]).
+Proof. repeat split; vm_compute; congruence. Qed.
+
+(* ---------------------------------------------------------------- structure layer *)
+
+Theorem C09_to_json_defined_iff_valid : forall (check_valid : jv -> res unit) e,
+  (exists s, to_json check_valid e = Ok s) <-> check_valid e = Ok tt.
+Proof. exact to_json_defined_iff_valid. Qed.
+
+Example C09_to_json_defined_iff_valid_nonvacuous :
+  (exists s, to_json sample_check sample = Ok s) /\ to_json sample_check JNull = Err EInvalidExt.
+Proof. split; [eexists|]; reflexivity. Qed.
+
+Theorem C09_from_to : forall (check_valid : jv -> res unit) e s,
+  wf e -> to_json check_valid e = Ok s -> from_json check_valid s = Ok e.
+Proof. exact from_to. Qed.
+
+Example C09_from_to_nonvacuous :
+  wf sample /\ to_json sample_check sample = Ok (print sample) /\ from_json sample_check (print sample) = Ok sample.
+Proof. split; [exact sample_wf | split; vm_compute; reflexivity]. Qed.
+
+Theorem C09_from_runtime_repr_iff_valid : forall (check_valid : jv -> res unit) e,
+  from_runtime_repr check_valid e = Ok e <-> check_valid e = Ok tt.
+Proof. exact from_runtime_repr_iff_valid. Qed.
+
+Example C09_from_runtime_repr_iff_valid_nonvacuous :
+  from_runtime_repr sample_check sample = Ok sample /\ from_runtime_repr sample_check JNull = Err EInvalidExt.
+Proof. split; reflexivity. Qed.
+
+Theorem C09_str_is_json : forall (check_valid : jv -> res unit) e s,
+  to_json check_valid e = Ok s -> to_str e = s.
+Proof. exact str_is_json. Qed.
+
+Example C09_str_is_json_nonvacuous : to_json sample_check sample = Ok (to_str sample).
+Proof. reflexivity. Qed.
+
+Theorem C09_constructors_agree :
+  forall (check_valid : jv -> res unit) (store : str -> option str),
+    (forall b, store b = Some b) ->
+    forall e, wf e ->
+      from_json check_valid (print e) = from_runtime_repr check_valid e
+      /\ save_load check_valid store e = from_runtime_repr check_valid e.
+Proof. exact constructors_agree. Qed.
+
+Example C09_constructors_agree_nonvacuous :
+  from_json sample_check (print sample) = Ok sample
+  /\ from_runtime_repr sample_check sample = Ok sample
+  /\ save_load sample_check sample_store sample = Ok sample
+  /\ from_json sample_check (print (JArr [])) = Err EInvalidExt
+  /\ save_load sample_check sample_store (JArr []) = Err EInvalidExt.
+Proof. repeat split; vm_compute; reflexivity. Qed.
+
+(* ---------------------------------------------------------------- file layer (partial: nibabel, gzip and
+   the file system are the hypothesis [store b = Some b]; the full statement would take [store] to be the
+   composition of Nifti1Image.to_filename and nibabel.load, which is exercised by the correspondence only) *)
+
+Theorem C09_file_roundtrip_partial :
+  forall (check_valid : jv -> res unit) (store : str -> option str),
+    (forall b, store b = Some b) ->
+    forall e, wf e -> check_valid e = Ok tt -> save_load check_valid store e = Ok e.
+Proof. exact file_roundtrip. Qed.
+
+Example C09_file_roundtrip_partial_nonvacuous :
+  wf sample /\ sample_check sample = Ok tt /\ save_load sample_check sample_store sample = Ok sample.
+Proof. split; [exact sample_wf | split; vm_compute; reflexivity]. Qed.
+
+Theorem C09_save_load_twice_partial :
+  forall (check_valid : jv -> res unit) (store : str -> option str),
+    (forall b, store b = Some b) ->
+    forall e e1, wf e -> save_load check_valid store e = Ok e1 ->
+      e1 = e /\ mangle e1 = mangle e /\ save_load check_valid store e1 = Ok e1.
+Proof. exact save_load_twice. Qed.
+
+Example C09_save_load_twice_partial_nonvacuous :
+  exists e1, save_load sample_check sample_store sample = Ok e1
+             /\ save_load sample_check sample_store e1 = Ok e1 /\ mangle e1 = mangle sample.
+Proof. exists sample. repeat split; vm_compute; reflexivity. Qed.
